@@ -920,7 +920,10 @@ pub fn run(ctx: &mut Ctx) {
                     let mshape = shape_of(&minimal);
                     let cwd_tag = if sc.prefix.is_empty() { "cwd=root" } else { "cwd=sub" };
                     let all_exclude = !minimal.is_empty() && mshape.iter().all(|d| d.magic.contains('X'));
-                    let class = if all_exclude && !sc.prefix.is_empty() {
+                    let class = if sc.prefix.find_byteset(b"*?[\\").is_some() && mshape.iter().any(|d| !d.magic.contains('T')) {
+                        // the current directory becomes part of the glob pattern; decides first as it affects every relative spec
+                        "cwd-with-glob-characters".to_string()
+                    } else if all_exclude && !sc.prefix.is_empty() {
                         "exclude-only-list".to_string()
                     } else if mshape.iter().any(|d| d.magic.contains('T') && (d.pat.contains('u') || d.pat.contains('c'))) {
                         // git takes the path of a `top` pathspec verbatim, without resolving `.` and `..`
@@ -933,8 +936,6 @@ pub fn run(ctx: &mut Ctx) {
                     } else if minimal.iter().any(|s| s.text.find(b"attr:!").is_some() || s.text.find(b" !").is_some()) {
                         // requirement "attribute unspecified"
                         "attr-unspecified-requirement".to_string()
-                    } else if sc.prefix.find_byteset(b"*?[\\").is_some() && mshape.iter().any(|d| !d.magic.contains('T')) {
-                        "cwd-with-glob-characters".to_string()
                     } else if mshape.iter().any(|d| d.pat.contains('B')) {
                         "icase-uppercase-in-bracket-or-escape".to_string()
                     } else {
